@@ -1,7 +1,9 @@
 from core import Case, hexs
+import core
 import re
 PID = "C18"
 DRIVER = "drv_heap"
+MATRIX = core.MATRIX_ZEROING     # thorough tier: -O0/-O2/-O3, clang, explicit_bzero on/off, mlock on/off
 DRIVER_FLAGS = ("-w",)
 RULE = ("operation histories (set, rotate_nonce, clear, move-in from a temporary, move-out) on a real secret_string; after every step the stored ciphertext / nonce / tag read through the "
         "HMAC_CPP_VERIF accessors are compared BYTE FOR BYTE with the model run on the process key and nonces read back from the object, the revealed bytes with the model's and with the "
